@@ -384,7 +384,10 @@ def _(c):
     117-125), sign included; a date without LOD or corrections takes the previous day's"""
     from beyond.dates.eop import Finals, Finals2000A
     name, cls, d1, d2 = [("finals.all", Finals, "dpsi", "deps"), ("finals2000A.all", Finals2000A, "dx", "dy")][c.integer("file")]
-    path = os.path.join(os.environ.get("BEYOND_REPO", "/repo"), "tests", "data", "pole", name)
+    root = os.environ.get("BEYOND_REPO", "/repo")
+    if not os.path.isdir(os.path.join(root, "tests", "data", "pole")):
+        root = "/repo"  # scratch copies of the package alone (tools/selftest.py) read the data shipped with the repository
+    path = os.path.join(root, "tests", "data", "pole", name)
     db = cls(path)
 
     def field(line, a, b):
